@@ -60,6 +60,7 @@ impl Clone for SvgElement {
 //@item src/context.rs :: struct TransformerContext
 //@ replace[R-opaque-type] <<<RefCell<Pcg32>>>> => <<<RngCell>>>
 //@ replace-all[R-opaque-type] <<<HashMap<String, SvgElement>>>> => <<<ElemTable>>>
+//@ replace[R-ghost] <<<    pub config: TransformConfig,>>> => <<<    pub config: TransformConfig,\n    /// ghost: the nesting depth in force at the entry of every (non-dispatcher) generator call, in order\n    pub gen_depths: Ghost<Seq<u32>>,>>>
 //@end
 
 impl SvgElement {
@@ -82,7 +83,7 @@ pub open spec fn depth_frame(pre: TransformerContext, post: TransformerContext) 
 impl TransformerContext {
 //@item src/context.rs :: impl TransformerContext :: fn inc_depth
 //@ ensures
-//@ - final(self).config == old(self).config    @@C17.depth.inc.frame
+//@ - final(self).config == old(self).config && final(self).gen_depths == old(self).gen_depths    @@C17.depth.inc.frame
 //@ - r is Ok <==> old(self).current_depth + 1 <= old(self).config.depth_limit    @@C17.depth.exact
 //@ - r is Err ==> r->Err_0 is DepthLimitExceeded    @@C17.depth.exact.kind
 //@ - r is Ok ==> final(self).current_depth == old(self).current_depth + 1    @@C17.depth.inc.count
@@ -91,7 +92,7 @@ impl TransformerContext {
 
 //@item src/context.rs :: impl TransformerContext :: fn dec_depth
 //@ ensures
-//@ - final(self).config == old(self).config    @@C17.depth.dec.frame
+//@ - final(self).config == old(self).config && final(self).gen_depths == old(self).gen_depths    @@C17.depth.dec.frame
 //@ - old(self).current_depth > 0 ==> r is Ok && final(self).current_depth == old(self).current_depth - 1   @@C17.depth.dec.count
 //@ - old(self).current_depth == 0 ==> r is Err && final(self).current_depth == 0    @@C17.depth.dec.zero
 //@end
@@ -103,7 +104,7 @@ impl TransformerContext {
     pub fn get_element_bbox(&self, el: &SvgElement) -> Result<Option<BoundingBox>> { unimplemented!() }
     #[verifier::external_body]
     pub fn update_element(&mut self, el: &SvgElement)
-        ensures final(self).current_depth == old(self).current_depth, final(self).config == old(self).config,
+        ensures final(self).current_depth == old(self).current_depth, final(self).config == old(self).config, final(self).gen_depths == old(self).gen_depths,
     { unimplemented!() }
 }
 
@@ -140,56 +141,89 @@ pub trait EventGen {
 impl EventGen for LoopElement {
 //@item src/loop_el.rs :: impl EventGen for LoopElement :: fn generate_events
 //@ external_body
+//@ ensures
+//@ - final(context).gen_depths@.len() > old(context).gen_depths@.len() && final(context).gen_depths@[old(context).gen_depths@.len() as int] == old(context).current_depth
+//@ - forall|i: int| 0 <= i < old(context).gen_depths@.len() ==> final(context).gen_depths@[i] == old(context).gen_depths@[i]
 //@end
 }
 impl EventGen for ForElement {
 //@item src/loop_el.rs :: impl EventGen for ForElement :: fn generate_events
 //@ external_body
+//@ ensures
+//@ - final(context).gen_depths@.len() > old(context).gen_depths@.len() && final(context).gen_depths@[old(context).gen_depths@.len() as int] == old(context).current_depth
+//@ - forall|i: int| 0 <= i < old(context).gen_depths@.len() ==> final(context).gen_depths@[i] == old(context).gen_depths@[i]
 //@end
 }
 impl EventGen for ReuseElement {
 //@item src/reuse.rs :: impl EventGen for ReuseElement :: fn generate_events
 //@ external_body
+//@ ensures
+//@ - final(context).gen_depths@.len() > old(context).gen_depths@.len() && final(context).gen_depths@[old(context).gen_depths@.len() as int] == old(context).current_depth
+//@ - forall|i: int| 0 <= i < old(context).gen_depths@.len() ==> final(context).gen_depths@[i] == old(context).gen_depths@[i]
 //@end
 }
 impl EventGen for DefaultsElement {
 //@item src/transform.rs :: impl EventGen for DefaultsElement :: fn generate_events
 //@ external_body
+//@ ensures
+//@ - final(context).gen_depths@.len() > old(context).gen_depths@.len() && final(context).gen_depths@[old(context).gen_depths@.len() as int] == old(context).current_depth
+//@ - forall|i: int| 0 <= i < old(context).gen_depths@.len() ==> final(context).gen_depths@[i] == old(context).gen_depths@[i]
 //@end
 }
 impl EventGen for Container {
 //@item src/transform.rs :: impl EventGen for Container :: fn generate_events
 //@ external_body
+//@ ensures
+//@ - final(context).gen_depths@.len() > old(context).gen_depths@.len() && final(context).gen_depths@[old(context).gen_depths@.len() as int] == old(context).current_depth
+//@ - forall|i: int| 0 <= i < old(context).gen_depths@.len() ==> final(context).gen_depths@[i] == old(context).gen_depths@[i]
 //@end
 }
 impl EventGen for OtherElement {
 //@item src/transform.rs :: impl EventGen for OtherElement :: fn generate_events
 //@ external_body
+//@ ensures
+//@ - final(context).gen_depths@.len() > old(context).gen_depths@.len() && final(context).gen_depths@[old(context).gen_depths@.len() as int] == old(context).current_depth
+//@ - forall|i: int| 0 <= i < old(context).gen_depths@.len() ==> final(context).gen_depths@[i] == old(context).gen_depths@[i]
 //@end
 }
 impl EventGen for GroupElement {
 //@item src/transform.rs :: impl EventGen for GroupElement :: fn generate_events
 //@ external_body
+//@ ensures
+//@ - final(context).gen_depths@.len() > old(context).gen_depths@.len() && final(context).gen_depths@[old(context).gen_depths@.len() as int] == old(context).current_depth
+//@ - forall|i: int| 0 <= i < old(context).gen_depths@.len() ==> final(context).gen_depths@[i] == old(context).gen_depths@[i]
 //@end
 }
 impl EventGen for ConfigElement {
 //@item src/transform.rs :: impl EventGen for ConfigElement :: fn generate_events
 //@ external_body
+//@ ensures
+//@ - final(context).gen_depths@.len() > old(context).gen_depths@.len() && final(context).gen_depths@[old(context).gen_depths@.len() as int] == old(context).current_depth
+//@ - forall|i: int| 0 <= i < old(context).gen_depths@.len() ==> final(context).gen_depths@[i] == old(context).gen_depths@[i]
 //@end
 }
 impl EventGen for SpecsElement {
 //@item src/transform.rs :: impl EventGen for SpecsElement :: fn generate_events
 //@ external_body
+//@ ensures
+//@ - final(context).gen_depths@.len() > old(context).gen_depths@.len() && final(context).gen_depths@[old(context).gen_depths@.len() as int] == old(context).current_depth
+//@ - forall|i: int| 0 <= i < old(context).gen_depths@.len() ==> final(context).gen_depths@[i] == old(context).gen_depths@[i]
 //@end
 }
 impl EventGen for VarElement {
 //@item src/transform.rs :: impl EventGen for VarElement :: fn generate_events
 //@ external_body
+//@ ensures
+//@ - final(context).gen_depths@.len() > old(context).gen_depths@.len() && final(context).gen_depths@[old(context).gen_depths@.len() as int] == old(context).current_depth
+//@ - forall|i: int| 0 <= i < old(context).gen_depths@.len() ==> final(context).gen_depths@[i] == old(context).gen_depths@[i]
 //@end
 }
 impl EventGen for IfElement {
 //@item src/transform.rs :: impl EventGen for IfElement :: fn generate_events
 //@ external_body
+//@ ensures
+//@ - final(context).gen_depths@.len() > old(context).gen_depths@.len() && final(context).gen_depths@[old(context).gen_depths@.len() as int] == old(context).current_depth
+//@ - forall|i: int| 0 <= i < old(context).gen_depths@.len() ==> final(context).gen_depths@[i] == old(context).gen_depths@[i]
 //@end
 }
 
@@ -197,6 +231,7 @@ impl EventGen for SvgElement {
 //@item src/transform.rs :: impl EventGen for SvgElement :: fn generate_events
 //@ ensures
 //@ - old(context).current_depth + 1 > old(context).config.depth_limit ==> r is Err    @@C17.depth.guard @@C01.depth.guard
+//@ - final(context).gen_depths@.len() > old(context).gen_depths@.len() ==> final(context).gen_depths@[old(context).gen_depths@.len() as int] == old(context).current_depth + 1    @@C01.depth.counted_while_nested @@C17.depth.counted_while_nested
 //@end
 }
 
